@@ -83,6 +83,18 @@ def gen(rng, tier):
             # a support no bar is linked to, beside the ordinary supports (valid input: a node left over after a bar was removed)
             s = G.with_unused_node(coincident(rng, flitch=False), rng)
             s.nodes["unused"] = s.nodes["unused"][:2] + ((True, True, True),)
+        if g % 8 in (1, 7) and s.bars:
+            # three load lines at one point of a bar (two of them in global axes): whatever order the lines come in
+            def inclined(b):
+                (x1, y1, _), (x2, y2, _) = s.nodes[b["n1"]], s.nodes[b["n2"]]
+                return x1 != x2 and y1 != y2
+            cand = [b for b in s.bars[:5] if b["l1"][2] or b["l2"][2]] or s.bars[:5]
+            b = ([b for b in cand if inclined(b)] or cand)[0]
+            tt = Fr("0.4375")
+            if all(abs(tt - x) > Fr("0.002") for l in s.loads if l["bar"] == b["id"] for x in ([l["t"]] if l["kind"] == "c" else [l["t0"], l["t1"]])):
+                s.loads += [{"kind": "c", "term": "fy", "local": True, "bar": b["id"], "t": tt, "v": Fr(-900)},
+                            {"kind": "c", "term": "fx", "local": False, "bar": b["id"], "t": tt, "v": Fr(1300)},
+                            {"kind": "c", "term": "fy", "local": False, "bar": b["id"], "t": tt, "v": Fr(-2100)}]
         if len(s.bars) > 5:
             s.bars = s.bars[:5]
             ids = {b["id"] for b in s.bars}
